@@ -136,10 +136,12 @@ def op_gc(w: World, op: dict):
     # files do next to their md5 ids)
     foreign = _his(w, op.get("foreign", []), name=("md5-dos2unix", "sha256")[len(op["used"]) % 2])
     used = foreign + _his(w, op["used"]) if ord_ == "foreign-first" else _his(w, op["used"]) + foreign
-    act = {"op": "Gc", "s": op["s"], "used": sorted(op["used"]), "foreign": sorted(op.get("foreign", [])), "ord": ord_,
+    cs, cro = op.get("cs", op["s"]), bool(op.get("cro", False))
+    cache_odb = w.odb(cs, read_only=cro) if cs != op["s"] else None
+    act = {"op": "Gc", "s": op["s"], "used": sorted(op["used"]), "foreign": sorted(op.get("foreign", [])), "ord": ord_, "cs": cs, "cro": cro,
            "shallow": op["shallow"], "dry": op["dry"], "ro": bool(op.get("ro"))}
     try:
-        n = gc(odb, used, shallow=op["shallow"], dry=op["dry"])
+        n = gc(odb, used, shallow=op["shallow"], dry=op["dry"], cache_odb=cache_odb)
     except Exception as exc:  # noqa: BLE001
         w.emit(act, {"op": "gc", "exc": type(exc).__name__})
         return
@@ -615,9 +617,9 @@ def check_C06(run: core.Run, replay=None):
         design_ops(run)
         gen = tlc_generate("gc")
         cases = []
-        for c in _sample(gen["gc"], 2500 if quick else 10**9, rng):
+        for c in _sample(gen["gc"], 2500 if quick else 10**9, rng) + gen["gcvia"]:
             op = {"op": "Gc", "s": c["s"], "used": c["used"], "foreign": c["foreign"], "ord": c["ord"], "shallow": c["shallow"],
-                  "dry": c["dry"], "ro": c["ro"]}
+                  "dry": c["dry"], "ro": c["ro"], "cs": c["cs"], "cro": c["cro"]}
             cases.append({"init": c["init"], "ops": [op], "kind": "gc"})
         cases += sim_cases("ObjectStore_sim_gc.cfg", 150 if quick else 1500, 10, run.seed + 5)
         run.extra["generated_cases"] = {k: len(v) for k, v in gen.items()}
